@@ -30,7 +30,7 @@ ASSUMPTIONS = [
     "totals['results'] is not compared (only numeric results are summed).",
     "Device preprocessing may rewrite circuits; all expectations are computed from the circuits the device actually received.",
 ]
-BUDGET = {"quick": {"examples": 1000}, "thorough": {"examples": 16000, "shards": 16}}
+BUDGET = {"quick": {"examples": 600}, "thorough": {"examples": 16000, "shards": 16}}
 SHRINK_LISTS = ("steps", "circs")
 
 DEVICES = ["default.qubit", "default.qubit", "default.qubit", "default.mixed", "reference.qubit", "null.qubit"]
@@ -131,6 +131,10 @@ def strategy(draw, tier="quick"):
         e = draw(st.fixed_dictionaries({"op": st.just("execute"), "circs": st.lists(circ(), min_size=2, max_size=4)}))
         for x in (g, e):
             steps.insert(draw(st.integers(0, len(steps))), x)
+    if draw(st.booleans()):
+        # leave and re-enter the same tracker somewhere in the middle (persistent vs resetting trackers differ only here)
+        i = draw(st.integers(1, len(steps)))
+        steps[i:i] = [{"op": "exit"}, {"op": "enter", "how": "reuse", "persistent": False}]
     if draw(st.integers(0, 9)) > 0:
         steps = [first] + steps
     return {"device": draw(st.sampled_from(DEVICES)), "steps": steps}
